@@ -6,7 +6,7 @@ from pyvc.engine import Contract, OpaqueClass
 from pyvc.loops import LoopSpec
 from pyvc import models as M
 from pyvc.classes import cls_of, issub
-from pyvc.state import RaiseSig, Unsupported
+from pyvc.state import RaiseSig, Unsupported, SHAREDP
 from pyvc.interp import is_callable, truthy
 from specs.sig import *   # noqa
 from contracts.sinter import TFunc
@@ -200,6 +200,9 @@ def register_dispatch(E):
         ctx.assume(Z.func('hasattr:source_route', Z.Obj, Z.Bool)(e))
         ctx.attr_write('*.source_route', Z.Obj, e, box(sr, ctx) if sr is not None else Z.NONE)
         ctx.writes.pop()        # initialisation of a fresh object, not a write to a shared one
+        if getattr(ctx, 'frame_mark', None) is not None:
+            ctx.frame_conds.pop()
+        ctx.assume(z3.Not(SHAREDP(e)))
         if 'allowed_methods' in kwargs:
             ctx.assume(ALLOW(e) == M.iterable_as_set(I, ctx, kwargs['allowed_methods'])[0])
             ctx.assume(STATUS(e) == 405)
@@ -222,6 +225,7 @@ def register_dispatch(E):
         ctx.assume(r != Z.NONE)
         ctx.assume(is_breaking_z(r))
         ctx.assume(STATUS(r) == 500)
+        ctx.assume(z3.Not(SHAREDP(r)))
         return VObj(r)
 
     E.opaque['EH'].methods['uncaught_to_response'] = uncaught_model
@@ -261,11 +265,14 @@ def register_dispatch(E):
             ctx.assume(STATUS(r.z) == 404)
             return r
         RF = Z.func('RENDERED_FROM', Z.Obj, Z.Obj)
+        # C12 assumption: what user code returns / raises for this request is not shared with other requests
         if ctx.branch(XRAISES(route.z)):
             e = XEXC(route.z)
             ctx.assume(isinst(e, 'builtins.Exception'))
             ctx.assume(e != Z.NONE)
+            ctx.assume(z3.Not(SHAREDP(e)))
             raise RaiseSig(VObj(e), None)
+        ctx.assume(z3.Not(SHAREDP(XRET(route.z))))
         return VObj(XRET(route.z))
 
     E.add_contract(Contract('clastic.route.BoundRoute.execute', trusted=True, model=execute_model,
@@ -288,6 +295,7 @@ def register_dispatch(E):
         ctx.assume(isinst(r, BR_CLS))
         ctx.assume(Z.func('RENDERED_FROM', Z.Obj, Z.Obj)(r) == box(_error, ctx) if _error is not None else Z.TRUE)
         ctx.assume(Z.func('ISRENDERED', Z.Obj, Z.Bool)(r))
+        ctx.assume(z3.Not(SHAREDP(r)))
         return VObj(r)
 
     E.add_contract(Contract('clastic.route.BoundRoute.execute_error', trusted=True, model=execute_error_model,
@@ -474,6 +482,11 @@ def register_dispatch_contract(E):
         post=POST)
     EXC_END = 'EXCFOLD(_seq, %s, request, self.error_handler)' % NR
     AM_END = 'AMFOLD(_seq, %s, request)' % NR
+    E.dispatch_loop = loop
+
+    @E.spec('NOT_SHARED')
+    def NOT_SHARED(I, ctx, o):
+        return VBool(z3.Not(SHAREDP(box(I.resolve(ctx, o), ctx))))
     E.add_contract(Contract(
         'clastic.application.Application.dispatch',
         params={'self': TInst('clastic.application.Application', E.app_fields), 'request': TObj('Request')},
